@@ -51,7 +51,7 @@ Qed.
 Lemma step_places s l s' k' x' : length (p_places s) = NPLACES -> p_panicked s' = false ->
   step s l = Some s' -> In x' (place k' s') ->
   In x' (place k' s)
-  \/ (exists k o x, k' = S k /\ (k < 9)%nat /\ In x (place k s) /\ stage (p_cfg s) k o x = Ok x')
+  \/ (exists k o x, l = LMove k (s_id x) o /\ k' = S k /\ (k < 9)%nat /\ In x (place k s) /\ stage (p_cfg s) k o x = Ok x')
   \/ (exists id u h r, k' = 0%nat /\ p_src s = (id, u, h) :: r /\ x' = SD id (fst (seed0 u h)) (snd (seed0 u h)) null_oracle 0)
   \/ (exists x t, k' = 0%nat /\ In x (place 9 s) /\ fin_worker (s_tree x) = Ok (t, DFeedback)
                   /\ x' = SD (s_id x) t (s_next x) (s_or x) (S (s_pass x))).
@@ -74,7 +74,7 @@ Proof.
       rewrite (place_after_move s k (S k) y rest k' GL) in HI by (unfold NPLACES; lia).
       destruct (Nat.eqb_spec k' (S k)) as [->|H1].
       * apply in_app_or in HI. destruct HI as [HI|[<-|[]]]; [left; exact HI|].
-        right. left. exists k, o, x. auto.
+        right. left. exists k, o, x. rewrite Hid. auto.
       * destruct (Nat.eqb_spec k' k) as [->|H2]; [left; apply Hrest; exact HI|left; exact HI].
     + inversion HS; subst s'. simpl in NP. discriminate.
   - destruct (take id (place 9 s)) as [[x rest]|] eqn:ET; [|discriminate].
@@ -120,7 +120,7 @@ Proof.
   intros G H HS k' x' HI.
   pose proof (step_ginv seed0_inv_closed pass_preserves_closed _ _ _ G HS) as G'.
   destruct (step_static _ _ _ HS) as [_ EC]. rewrite EC.
-  destruct (step_places s l s' k' x' (g_len _ G) (g_nopanic _ G') HS HI) as [A|[(k & o & x & -> & Hk & Hx & HY)|[(id & u & h & r & -> & ES & ->)|(x & t & -> & Hx & HF & ->)]]].
+  destruct (step_places s l s' k' x' (g_len _ G) (g_nopanic _ G') HS HI) as [A|[(k & o & x & _ & -> & Hk & Hx & HY)|[(id & u & h & r & -> & ES & ->)|(x & t & -> & Hx & HF & ->)]]].
   - apply H. exact A.
   - eapply hinv_stage; eauto.
   - exists [], u, h, (fst (seed0 u h)), (snd (seed0 u h)). simpl. auto.
